@@ -116,6 +116,22 @@ func main() {
 			}
 		}
 	}
+	// Large images (the small ones above exercise every layout; these exercise scale): hundreds of
+	// pages, page counts that are and are not multiples of 8, 16 and 64.
+	for _, size := range []int{0x81000, 0x100000, 0x101000, 0x203000, 0x3ff000} {
+		for _, vc := range []int{1, 4} {
+			for _, pr := range []struct {
+				p sgpb.SevProduct_SevProductName
+				w uint
+			}{{sgpb.SevProduct_SEV_PRODUCT_MILAN, 48}, {sgpb.SevProduct_SEV_PRODUCT_GENOA, 52}} {
+				size, vc, pr := size, vc, pr
+				tasks = append(tasks, func() task {
+					return task{id: fmt.Sprintf("large size=%#x (%d pages) vcpus=%d product=%v", size, size/0x1000, vc, pr.p),
+						spec: fx.ImageSpec{Size: size, Fill: fx.PatternFill, ResetAddr: 0xff0000ff, Sev: fx.DefaultSev(), NoTdx: true, SevMetaAt: 0x800}, vcpus: vc, prod: pr.p, width: pr.w}
+				})
+			}
+		}
+	}
 	r.ParallelFor(len(tasks), func(i int) {
 		t := tasks[i]()
 		r.Case(t.id, func() string {
@@ -176,7 +192,7 @@ func main() {
 			seq = append(seq, t)
 		}
 	}
-	shared := make([]byte, 0x3000)
+	shared := make([]byte, 0x400000)
 	pairs := 0
 	for i := 0; i+1 < len(seq); i++ {
 		a, b := seq[i], seq[i+1]
